@@ -51,6 +51,10 @@ CHECKS["C17"] = dict(engine="E3", level="exploration", technique="deterministic 
    text="In a simulator built with -tags 'verif avfs_setostype': static checks (reported OS type, separator, volume calls against a set model) and seeded histories of the C01 templates expressed with portable path builders (Join of name components under the instance's own root or volume), issued by the administrator on a Windows-typed and a Linux-typed instance of MemFS or OrefaFS: call-by-call agreement on success/failure, isomorphic trees after ToSlash and volume stripping (names, types, contents, link counts, link targets), Windows-typed errors are WindowsError values. Chown/Lchown are not generated and permission bits/owners are not compared (documented OS-specific). Sampling, not proof.",
    note="reference = Linux-typed instance of the same implementation (common sequential defects cancel: C01's); system directories differ by design, histories run below a work directory", ref="3/C17")
 
+CHECKS["C01"] = dict(engine="E1", level="exploration", technique="deterministic lockstep simulation against the real kernel: every call also issued through osfs.OsFS in a chrooted helper process, full tree comparison after every call",
+   text="Seeded histories of 5-60 namespace calls by the administrator on MemFS or OrefaFS, operands drawn by class from the current tree (existing file/directory/symlink, missing, missing parent, below a regular file, the root; second operand anywhere, incl. ancestor/descendant/same; names that are prefixes of each other), executed in lockstep through osfs.OsFS inside a helper process chrooted into a private tmpfs directory: same errno class and data call by call, identical trees (names, types, permission bits, owners, sizes, contents, link counts, SameFile classes, link targets) after every call. A twin mode checks unclean paths against their Clean() form. Nine recorded families of known findings; 90% of the runs steer clear of their operand classes. Sampling, not proof.",
+   note="reference = Go os package on this kernel's tmpfs as root in a chroot; mtimes, directory sizes/link counts not compared; symlink targets generated clean; OrefaFS owners not compared (no identity manager advertised)", ref="3/C01")
+
 NA = {
  "C13": "Clean, Join, Split, Dir, Base, IsAbs, Rel, Abs, FromSlash, ToSlash, VolumeName, Match and PathIterator are pure functions of their string arguments and the OS-type constant: there is no schedule, clock, I/O, fault or shared state for a simulator to control; generating strings is input fuzzing, a different technique (DESIGN.md section 4).",
 }
